@@ -2569,9 +2569,12 @@ pub(crate) async fn write_manifest_file(
     mut transaction: Option<&Transaction>,
 ) -> std::result::Result<ManifestLocation, CommitError> {
     if config.auto_set_feature_flags {
+        // Keep the stable row id feature of a manifest that already has it (it may have no
+        // fragment left to derive it from).
+        let use_stable_row_ids = config.use_stable_row_ids || manifest.uses_stable_row_ids();
         apply_feature_flags(
             manifest,
-            config.use_stable_row_ids,
+            use_stable_row_ids,
             config.disable_transaction_file,
         )?;
     }
